@@ -380,6 +380,60 @@ class C05(Check):
         cache[ck] = outs
         return outs
 
+    # -- a call that raises inside a critical section must not wedge the store -----------------
+    def extra_checks(self):
+        """Programs in which one call raises INSIDE its critical section (a state-change listener that raises once,
+        or an argument of the wrong type): every other call must still return.  Monitor only (the model has no
+        callbacks); explored with the same scheduler."""
+        from operon_ai.state import metabolism as M
+        C4._snap.mod = M
+        n_runs = 0
+        scenarios = [
+            ("listener raises once during consume", {"budget": 100, "gtp": 0, "nadh": 0, "max_debt": 0, "rate": 0.5},
+             [[["consume", 0, 75, "ATP", False, 0]], [["regen", 0, 10, "ATP"], ["consume", 0, 5, "ATP", False, 10]]], "listener"),
+            ("bad argument type in transfer", {"budget": 50, "gtp": 0, "nadh": 0, "max_debt": 0, "rate": 0.5},
+             [[["transfer", 0, 1, None, "ATP"]], [["transfer", 1, 0, 10, "ATP"], ["consume", 0, 5, "ATP", False, 0]]], "badarg"),
+        ]
+        for what, cfg, threads, kind in scenarios:
+            case = {"stores": [cfg, cfg], "threads": threads}
+
+            def make_world(s, case=case, kind=kind):
+                w = World(case, s)
+                if kind == "listener":
+                    fired = []
+
+                    def listener(state):
+                        if not fired:
+                            fired.append(1)
+                            raise RuntimeError("listener failed")
+                    w.stores[0].on_state_change = listener
+                return w.fns, w.outcome
+
+            stack, seen = [[]], set()
+            while stack and len(seen) < (40 if self.tier == "quick" else 300):
+                prefix = stack.pop()
+                s, out = sched.run_schedule(make_world, prefix, TARGET)
+                n_runs += 1
+                chosen = [c for c, _ in s.trace if c is not None]
+                if tuple(chosen) in seen:
+                    continue
+                seen.add(tuple(chosen))
+                unfinished = [t for t, prog in enumerate(threads) if len(out["results"][t]) < len(prog)]
+                if s.deadlock or unfinished:
+                    self.violations.append(Violation(
+                        "C05/deadlock", f"{what}: after a call raised inside its critical section, threads {unfinished} "
+                        f"never returned (store lock leaked); schedule {chosen}",
+                        case={"stores": [cfg, cfg], "threads": threads, "schedule": chosen, "scenario": what}))
+                    break
+                for i in range(len(s.trace) - 1, len(prefix) - 1, -1):
+                    c, enabled = s.trace[i]
+                    if c is None:
+                        continue
+                    for alt in enabled:
+                        if alt != c and self._preemptions(chosen[:i] + [alt], s.trace) <= 1:
+                            stack.append(chosen[:i] + [alt])
+        self.extra_cov["exception_in_critical_section_runs"] = n_runs
+
     def known_witnesses(self):
         return []
 
